@@ -205,12 +205,14 @@ func (s *c16GenState) option() c16Opt {
 			o.Ty = c16OptTyFor(r, t.ty)
 		}
 		o.Vals = s.vals()
+		o.Spare = c16GenSpare(r, o.Ty, 35)
 	case w < 62: // designated values
 		o.Ty = c16ConcreteTys[r.Intn(len(c16ConcreteTys))]
 		if t := s.pickTarget(func(t *c16Target) bool { return t.kind == "comp" && t.ty != c16TyNone }); t != nil && r.Chance(75) {
 			o.Ty = c16OptTyFor(r, t.ty)
 		}
 		o.Vals = s.vals()
+		o.Spare = c16GenSpare(r, o.Ty, 25)
 		for i := 0; i < npaths; i++ {
 			if k, bad := malformed(); bad {
 				o.Paths = append(o.Paths, s.badPath(k))
@@ -293,6 +295,7 @@ func (s *c16GenState) construction() []c16BuildOp {
 				b.Ty = c16OptTyFor(r, t.ty)
 			}
 			b.Vals = s.vals()
+			b.Spare = c16GenSpare(r, b.Ty, 40)
 		} else {
 			b.Handlers = s.handlers()
 		}
@@ -682,7 +685,7 @@ func c16Corpus() []*c16Case {
 		c16Opt{Handlers: []int{3}, Paths: [][]string{{"sub", "in"}}}, c16Opt{Handlers: []int{4}, Paths: [][]string{{"sub", "in", "cm"}}})
 	kone("keys-unknown-nested", c16Opt{Ty: c16TyA, Vals: []int{1}, Paths: [][]string{{"sub", "zz"}}})
 	kone("keys-wrong-type-nested", c16Opt{Ty: c16TyB, Vals: []int{1}, Paths: [][]string{{"sub", "in", "a"}}})
-	return append(cs, mk("conc"), mk("seq"), derived)
+	return append(append(cs, mk("conc"), mk("seq"), derived), c16SliceCorpus()...)
 }
 
 // ---------------------------------------------------------------------------------------
@@ -888,6 +891,26 @@ func c16Shrink(ctx *vh.Ctx, c *c16Case, sig string) *c16Case {
 			if len(cur.Store[i].Vals) > 1 {
 				cand := c16Clone(cur)
 				cand.Store[i].Vals = cand.Store[i].Vals[:1]
+				if try(cand) {
+					progress = true
+				}
+			}
+		}
+		// less spare capacity
+		for i := range cur.Store {
+			if len(cur.Build) == 0 && cur.Store[i].Spare > 0 {
+				cand := c16Clone(cur)
+				cand.Store[i].Spare--
+				if try(cand) {
+					progress = true
+				}
+			}
+		}
+		for i := range cur.Build {
+			if cur.Build[i].Spare > 0 {
+				cand := c16Clone(cur)
+				cand.Build[i].Spare--
+				c16SyncStore(cand)
 				if try(cand) {
 					progress = true
 				}
